@@ -160,6 +160,31 @@ class SymSim:
     parts = [s.value_bv(getattr(val, f)) for f in val.__bitstruct_fields__]
     return z3.Concat(*parts) if len(parts) > 1 else parts[0]
 
+  def value_nbits(s, val):
+    if isinstance(val, s.Bits): return val.nbits
+    if isinstance(val, list): return sum(s.value_nbits(x) for x in val)
+    return sum(s.value_nbits(getattr(val, f)) for f in val.__bitstruct_fields__)
+
+  def drive(s, sigrepr, e):
+    """drive a signal (Bits, bitstruct or list) from a packed z3 term / python int, by the specified layout"""
+    val = s.sig_value[sigrepr]
+    n = s.value_nbits(val)
+    if type(e) is int: e = z3.BitVecVal(e, n)
+    assert e.size() == n, (sigrepr, e.size(), n)
+
+    def rec(v, hi):   # assigns bits [hi-width, hi) of e; returns new hi
+      if isinstance(v, s.Bits):
+        lo = hi - v.nbits
+        t = z3.simplify(z3.Extract(hi - 1, lo, e))
+        v._uint = t.as_long() if z3.is_bv_value(t) else core.from_bv(t)
+        return lo
+      if isinstance(v, list):
+        for x in reversed(v): hi = rec(x, hi)
+        return hi
+      for f in v.__bitstruct_fields__: hi = rec(getattr(v, f), hi)
+      return hi
+    rec(val, n)
+
   def sig_bv(s, sigrepr):
     return z3.simplify(s.value_bv(s.sig_value[sigrepr]))
 
